@@ -30,7 +30,7 @@ func c02History(rep *Report, cfg engine.Config, ops []engine.Op, hseed int64, sh
 		setup := func(e *engine.Engine) {
 			e.KeepReaders = true
 			var inHook int32
-			var probes sync.WaitGroup
+			var probes, releasers sync.WaitGroup
 			var commitDone int32
 			e.Disk.Hook = func(kind simdisk.OpKind, idx int) {
 				if kind == simdisk.OpRead || kind == simdisk.OpSize {
@@ -47,9 +47,12 @@ func c02History(rep *Report, cfg engine.Config, ops []engine.Op, hseed int64, sh
 				if op.Kind == "commit" && e.Tx != nil && e.NumReaders() > 0 {
 					atomic.StoreInt32(&commitDone, 0)
 					// Commit will block on the exclusive lock: release it from a second goroutine
+					// (the main goroutine waits for it after the commit: it never touches a closed File)
+					releasers.Add(1)
 					go func(f *txfile.File) {
+						defer releasers.Done()
 						deadline := time.Now().Add(10 * time.Second)
-						for time.Now().Before(deadline) {
+						for time.Now().Before(deadline) && atomic.LoadInt32(&commitDone) == 0 {
 							_, pend, _ := txfile.VerifLockState(f)
 							if pend {
 								break
@@ -86,6 +89,7 @@ func c02History(rep *Report, cfg engine.Config, ops []engine.Op, hseed int64, sh
 			e.AfterOp = func(e *engine.Engine, op engine.Op, res engine.Result) {
 				if op.Kind == "commit" {
 					atomic.StoreInt32(&commitDone, 1)
+					releasers.Wait()
 					probes.Wait()
 				}
 				if op.Kind != "rbegin" && op.Kind != "rclose" && op.Kind != "rcloseall" && op.Kind != "rread" {
